@@ -197,6 +197,30 @@ func (env *Env) call(e *spec.Call) Value {
 		a, b := env.eval(e.Args[0]), env.eval(e.Args[1])
 		f := en.ctx.Fun("s.concat", []smt.Sort{smt.Str, smt.Str}, smt.Str)
 		return scalar(types.Typ[types.String], smt.App(smt.Str, f, a.one(), b.one()))
+	case "maphas", "mapval":
+		// maphas(m, k) / mapval(m, k): a Go map value as modelled by the has/val arrays
+		argc(2)
+		m := env.eval(e.Args[0])
+		mt, ok := types.Unalias(m.T).Underlying().(*types.Map)
+		if !ok {
+			specErr("%s: not a map: %s", name, exprString(e.Args[0]))
+		}
+		kv := env.eval(e.Args[1])
+		if kv.T == tUntypedInt || kv.T == types.Typ[types.UntypedNil] {
+			kv = env.conversion(mt.Key(), kv)
+		}
+		hk, ks, vls, vp := env.x.mapKeys(mt)
+		k := en.leavesOf(kv)[0]
+		has := smt.And(smt.Not(smt.Eq(m.one(), en.null())), smt.Select(smt.Select(en.heapArr(env.st, hk, smt.Ref, smt.ArrayOf(ks, smt.Bool)), m.one()), k))
+		if name == "maphas" {
+			return scalar(tBool, has)
+		}
+		out := Value{T: mt.Elem()}
+		for _, l := range vls {
+			arr := en.heapArr(env.st, vp+l.Path, smt.Ref, smt.ArrayOf(ks, l.Sort))
+			out.L = append(out.L, smt.Select(smt.Select(arr, m.one()), k))
+		}
+		return out
 	case "iface":
 		// iface(x): x boxed into an interface value (for comparisons with interface-typed values)
 		argc(1)
@@ -941,6 +965,17 @@ func (x *exec) callSiteAsserts(st *State, fr *Frame, ins ssa.Instruction, ci cal
 		env.sitePos = ins.Pos()
 		if !direct {
 			env.frame = nil
+		} else {
+			// innermost loop around the call: "$i" is the number of completed iterations
+			var best *loop
+			for _, lp := range fr.loops.list {
+				in := lp.body[ins.Block()] || lp.stmtPos.IsValid() && lp.stmtPos <= ins.Pos() && ins.Pos() < lp.stmtEnd
+				if in && (best == nil || len(lp.body) < len(best.body)) {
+					best = lp
+				}
+			}
+			env.loop = best
+			env.inBody = true
 		}
 		names := paramNames(ci, x.e.w.Contracts[ci.key])
 		for i, n := range names {
